@@ -347,3 +347,38 @@ func simNextRand() uint64 {
 	simPinCount++
 	return simPinRand
 }
+
+// ---- gates: a hook the harness installs; called at the entry of channel operations and
+// of sync.Mutex.Lock by goroutines inside a bubble (never on a system stack, never with
+// runtime locks held, never re-entrantly).
+
+var simYieldFn func(kind int, n int, p0, p1, p2, p3, p4, p5 uintptr)
+
+//go:linkname simSetYieldFn runtime.simSetYieldFn
+func simSetYieldFn(f func(kind int, n int, p0, p1, p2, p3, p4, p5 uintptr)) { simYieldFn = f }
+
+//go:linkname simSetNoYield runtime.simSetNoYield
+func simSetNoYield(v bool) bool {
+	gp := getg()
+	old := gp.simNoYield
+	gp.simNoYield = v
+	return old
+}
+
+func simMaybeYield(kind int) {
+	if simYieldFn == nil {
+		return
+	}
+	gp := getg()
+	if gp.bubble == nil || gp.simNoYield || gp.m.curg != gp || gp.m.locks != 0 || gp.m.preemptoff != "" {
+		return
+	}
+	gp.simNoYield = true
+	var pcs [6]uintptr
+	n := callers(2, pcs[:])
+	simYieldFn(kind, n, pcs[0], pcs[1], pcs[2], pcs[3], pcs[4], pcs[5])
+	gp.simNoYield = false
+}
+
+//go:linkname internal_sync_simMaybeYield internal/sync.runtime_simMaybeYield
+func internal_sync_simMaybeYield(kind int) { simMaybeYield(kind) }
